@@ -20,6 +20,9 @@ const (
 type wstep struct {
 	who string // "root" or "user@addr"
 	sql string
+	// mustFail: the statement is invalid (MySQL rejects it); if the engine rejects it too the
+	// witness is not reproduced
+	mustFail bool
 }
 
 type witness struct {
@@ -34,38 +37,65 @@ type witness struct {
 var witnesses = []witness{
 	{id: kfDBRevoke, what: "a database-level REVOKE that empties the database level also drops the account's table grants in that database",
 		steps: []wstep{
-			{"root", "CREATE USER w@localhost"}, {"root", "GRANT SELECT ON d1.t1 TO w@localhost"}, {"root", "GRANT INSERT ON d1.* TO w@localhost"},
-			{"root", "REVOKE INSERT ON d1.* FROM w@localhost"}, {"w@localhost", "SELECT a FROM d1.t1"}},
+			{who: "root", sql: "CREATE USER w@localhost"}, {who: "root", sql: "GRANT SELECT ON d1.t1 TO w@localhost"}, {who: "root", sql: "GRANT INSERT ON d1.* TO w@localhost"},
+			{who: "root", sql: "REVOKE INSERT ON d1.* FROM w@localhost"}, {who: "w@localhost", sql: "SELECT a FROM d1.t1"}},
 		expect: "allowed"},
 	{id: kfSuper, what: "an account holding SUPER passes every static privilege check, also for privileges revoked from it",
 		steps: []wstep{
-			{"root", "CREATE USER w@localhost"}, {"root", "GRANT ALL ON *.* TO w@localhost"}, {"root", "REVOKE SELECT ON *.* FROM w@localhost"},
-			{"w@localhost", "SELECT a FROM d1.t1"}},
+			{who: "root", sql: "CREATE USER w@localhost"}, {who: "root", sql: "GRANT ALL ON *.* TO w@localhost"}, {who: "root", sql: "REVOKE SELECT ON *.* FROM w@localhost"},
+			{who: "w@localhost", sql: "SELECT a FROM d1.t1"}},
 		expect: "denied"},
 	{id: kfRevokeEvery, what: "REVOKE ALL PRIVILEGES, GRANT OPTION FROM user clears only the global level",
 		steps: []wstep{
-			{"root", "CREATE USER w@localhost"}, {"root", "GRANT SELECT ON d1.* TO w@localhost"}, {"root", "REVOKE ALL PRIVILEGES, GRANT OPTION FROM w@localhost"},
-			{"w@localhost", "SELECT a FROM d1.t1"}},
+			{who: "root", sql: "CREATE USER w@localhost"}, {who: "root", sql: "GRANT SELECT ON d1.* TO w@localhost"}, {who: "root", sql: "REVOKE ALL PRIVILEGES, GRANT OPTION FROM w@localhost"},
+			{who: "w@localhost", sql: "SELECT a FROM d1.t1"}},
 		expect: "denied"},
 	{id: kfCurDB, what: "DELETE FROM db.t also resolves the session's current database and is denied when that database is no longer accessible to the user",
 		steps: []wstep{
-			{"root", "CREATE USER w@localhost"}, {"root", "GRANT DELETE ON d1.* TO w@localhost"}, {"root", "GRANT SELECT ON d2.* TO w@localhost"},
-			{"w@localhost", "USE d2"}, {"root", "REVOKE SELECT ON d2.* FROM w@localhost"}, {"w@localhost", "DELETE FROM d1.t1"}},
+			{who: "root", sql: "CREATE USER w@localhost"}, {who: "root", sql: "GRANT DELETE ON d1.* TO w@localhost"}, {who: "root", sql: "GRANT SELECT ON d2.* TO w@localhost"},
+			{who: "w@localhost", sql: "USE d2"}, {who: "root", sql: "REVOKE SELECT ON d2.* FROM w@localhost"}, {who: "w@localhost", sql: "DELETE FROM d1.t1"}},
 		expect: "allowed"},
 	{id: kfCreateTbl, what: "CREATE TABLE is authorised at the database level only; a table-level CREATE grant is not honoured",
 		steps: []wstep{
-			{"root", "CREATE USER w@localhost"}, {"root", "GRANT CREATE ON d1.x TO w@localhost"}, {"root", "DROP TABLE d1.x"},
-			{"w@localhost", "CREATE TABLE d1.x (a INT PRIMARY KEY, b INT)"}},
+			{who: "root", sql: "CREATE USER w@localhost"}, {who: "root", sql: "GRANT CREATE ON d1.x TO w@localhost"}, {who: "root", sql: "DROP TABLE d1.x"},
+			{who: "w@localhost", sql: "CREATE TABLE d1.x (a INT PRIMARY KEY, b INT)"}},
 		expect: "allowed"},
 	{id: kfRename, what: "RENAME TABLE db.t TO db.u checks privileges on db but renames inside the session's current database",
 		steps: []wstep{
-			{"root", "CREATE USER w@localhost"}, {"root", "GRANT ALL ON d1.* TO w@localhost"}, {"root", "GRANT SELECT ON d2.* TO w@localhost"},
-			{"w@localhost", "USE d2"}, {"w@localhost", "RENAME TABLE d1.t2 TO d1.y"}},
+			{who: "root", sql: "CREATE USER w@localhost"}, {who: "root", sql: "GRANT ALL ON d1.* TO w@localhost"}, {who: "root", sql: "GRANT SELECT ON d2.* TO w@localhost"},
+			{who: "w@localhost", sql: "USE d2"}, {who: "w@localhost", sql: "RENAME TABLE d1.t2 TO d1.y"}},
 		expect: "allowed", sameDB: "d2"},
 	{id: kfFuzzy, what: "GRANT ... TO an account that does not exist is applied to another account with the same user name instead of failing",
 		steps: []wstep{
-			{"root", "CREATE USER 'w'@'%'"}, {"root", "GRANT SELECT ON d1.* TO 'w'@'localhost'"}, {"w@10.1.2.3", "SELECT a FROM d1.t1"}},
+			{who: "root", sql: "CREATE USER 'w'@'%'"}, {who: "root", sql: "GRANT SELECT ON d1.* TO 'w'@'localhost'", mustFail: true},
+			{who: "w@10.1.2.3", sql: "SELECT a FROM d1.t1"}},
 		expect: "denied"},
+}
+
+// kfNilPersister belongs to property C10 (no statement crashes the engine) but was found while
+// building this check and can only be re-confirmed here: on an engine built the documented way
+// (sqle.New with IncludeRootAccount, no SetPersister call) every account statement panics in
+// MySQLDb.Persist (nil persister) after it has taken effect.
+const kfNilPersister = "C10-create-user-nil-persister"
+
+func nilPersisterWitness(t *testing.T, st *stats.Collector) {
+	st.Eval()
+	f := fx.New(fx.Opts{Root: true, NoPersister: true, DBs: dbs})
+	root := f.NewSession("root", "localhost", dbs[0])
+	r := root.Exec("CREATE USER np@localhost")
+	if r.Panic == nil {
+		// success or an ordinary error both satisfy "returns a result or an error"
+		t.Logf("%s: not reproduced (CREATE USER without a persister -> %s)", kfNilPersister, r)
+		f.Close()
+		return
+	}
+	// a recovered panic poisons the fixture: it is not used again
+	st.NonTrivial(map[string]any{"finding": kfNilPersister, "witness": "CREATE USER np@localhost -> " + r.String()}, kfNilPersister)
+	if kf.Suppress(st, kfNilPersister) {
+		t.Logf("KNOWN %s: account statements panic when no persister was installed", kfNilPersister)
+		return
+	}
+	t.Errorf("%s: sqle.New(.., IncludeRootAccount) without SetPersister, then CREATE USER np@localhost as root: panic %v\n%s", kfNilPersister, r.Panic, r.Stack)
 }
 
 // TestC39Known re-confirms the witness of every candidate finding. A witness that still
@@ -73,6 +103,7 @@ var witnesses = []witness{
 func TestC39Known(t *testing.T) {
 	st := stats.New("C39", "witness")
 	defer st.Flush()
+	nilPersisterWitness(t, st)
 	for _, w := range witnesses {
 		st.Eval()
 		e := newEnv(t.Fatalf)
@@ -80,6 +111,7 @@ func TestC39Known(t *testing.T) {
 		var log []string
 		var last *fx.Result
 		before := ""
+		rejected := false
 		for i, s := range w.steps {
 			ss := sess[s.who]
 			if ss == nil {
@@ -97,8 +129,17 @@ func TestC39Known(t *testing.T) {
 				t.Fatalf("%s: panic\n%s\n%s", w.id, strings.Join(log, "\n"), last.Stack)
 			}
 			if i < len(w.steps)-1 && !last.OK() {
+				if s.mustFail {
+					rejected = true
+					break
+				}
 				t.Fatalf("%s: witness set-up step failed\n%s", w.id, strings.Join(log, "\n"))
 			}
+		}
+		if rejected {
+			t.Logf("%s: not reproduced (the invalid statement is rejected: %s)", w.id, log[len(log)-1])
+			e.f.Close()
+			continue
 		}
 		got := "other"
 		if last.OK() {
@@ -107,10 +148,6 @@ func TestC39Known(t *testing.T) {
 			got = "denied"
 		}
 		bad := got != w.expect
-		if w.id == kfFuzzy {
-			// the GRANT itself may instead be rejected (MySQL does): then the probe is denied, fine
-			bad = got == "allowed"
-		}
 		detail := ""
 		if !bad && w.sameDB != "" {
 			if after := e.snapDB(t.Fatalf, w.sameDB, true); after != before {
